@@ -23,55 +23,86 @@ func findMissingRules(c *Ctx) {
 
 	if fi := c.P.MustFunc(R, "R10a", "disk.(*diskCache).findMissingLocalCAS"); fi != nil {
 		var base *Base
-		n, nClears := 0, 0
+		nClears := 0
+		info := fi.Pkg.TypesInfo
+		slice := paramObj(fi, 0)
+		// roles: (item, element) := lru.Get(...); locals that copy item.size
+		itemObj := lhsObjOfCall(fi, "disk.(*SizedLRU).Get", 0)
+		elemObj := lhsObjOfCall(fi, "disk.(*SizedLRU).Get", 1)
+		sizeTerms := map[string]bool{}
+		if itemObj != nil {
+			sizeTerms[objID(itemObj)+".size"] = true
+			ast.Inspect(fi.Decl.Body, func(m ast.Node) bool {
+				if as, ok := m.(*ast.AssignStmt); ok && len(as.Lhs) == len(as.Rhs) {
+					for i, r := range as.Rhs {
+						if sel, ok := ast.Unparen(r).(*ast.SelectorExpr); ok && sel.Sel.Name == "size" && identObj(info, sel.X) == itemObj {
+							if o := identObj(info, as.Lhs[i]); o != nil {
+								sizeTerms[objID(o)] = true
+							}
+						}
+					}
+				}
+				return true
+			})
+		}
+		isClear := func(as *ast.AssignStmt) bool {
+			if len(as.Lhs) != 1 || len(as.Rhs) != 1 || !isNilIdent(info, as.Rhs[0]) {
+				return false
+			}
+			ix, ok := ast.Unparen(as.Lhs[0]).(*ast.IndexExpr)
+			return ok && slice != nil && identObj(info, ix.X) == slice
+		}
 		base = NewBase(Hooks{PreAssign: func(x *Exec, as *ast.AssignStmt, s St) St {
-			if len(as.Lhs) == 1 && len(as.Rhs) == 1 && exprStr(as.Rhs[0]) == "nil" {
-				if ix, ok := ast.Unparen(as.Lhs[0]).(*ast.IndexExpr); ok && exprStr(ix.X) == "blobs" {
-					n = 0
-					ast.Inspect(x.Fn.Body, func(m ast.Node) bool {
-						if a2, ok := m.(*ast.AssignStmt); ok && a2.Pos() <= as.Pos() && len(a2.Rhs) == 1 && exprStr(a2.Rhs[0]) == "nil" {
-							if ix2, ok := ast.Unparen(a2.Lhs[0]).(*ast.IndexExpr); ok && exprStr(ix2.X) == "blobs" {
-								n++
-							}
-						}
-						return true
-					})
-					if n > nClears {
-						nClears = n
+			if !isClear(as) {
+				return s
+			}
+			n := 0
+			ast.Inspect(x.Fn.Body, func(m ast.Node) bool {
+				if a2, ok := m.(*ast.AssignStmt); ok && a2.Pos() <= as.Pos() && isClear(a2) {
+					n++
+				}
+				return true
+			})
+			if n > nClears {
+				nClears = n
+			}
+			empty := hasEmptyShaAtom(s, "T")
+			found := false
+			if elemObj != nil && s.Get("n:"+objID(elemObj)) == "nonnil" {
+				for kk, vv := range s.m {
+					if !strings.HasPrefix(kk, "p:disk.isSizeMismatch(") || vv != "F" {
+						continue
 					}
-					empty := hasEmptyShaAtom(s, "T")
-					found := false
-					for k, v := range s.m {
-						if strings.HasPrefix(k, "n:listElem@") && v == "nonnil" {
-							for kk, vv := range s.m {
-								if strings.HasPrefix(kk, "p:disk.isSizeMismatch(") && strings.Contains(kk, ".SizeBytes,foundSize@") && vv == "F" {
-									found = true
-								}
-							}
-						}
+					args := strings.SplitN(strings.TrimSuffix(kk[len("p:disk.isSizeMismatch("):], ")"), ",", 2)
+					if len(args) == 2 && strings.HasSuffix(args[0], ".SizeBytes") && sizeTerms[args[1]] {
+						found = true
 					}
-					R.Check(empty || found, "R10a", fmt.Sprintf("%sfindMissingLocalCAS:clear#%d", c.Cfg, n), c.P.Pos(as.Pos()), "a digest is cleared only for the empty blob or for an indexed entry whose size does not mismatch",
-						"a requested digest can be reported present without a sized hit in the index", x.Trace()...)
 				}
 			}
+			R.Check(empty || found, "R10a", fmt.Sprintf("%sfindMissingLocalCAS:clear#%d", c.Cfg, n), c.P.Pos(as.Pos()), "a digest is cleared only for the empty blob or for an indexed entry whose logical size does not mismatch the requested one",
+				"a requested digest can be reported present without a sized hit in the index", x.Trace()...)
 			return s
 		}})
 		x := NewExec(c.P.FlowOf(fi), base)
 		x.Run(newSt())
 		R.Check(nClears >= 2, "R10a", c.Cfg+"findMissingLocalCAS:clears", "", "both clearing assignments were found", fmt.Sprintf("found %d", nClears))
-		// foundSize is the entry's logical size
-		ok := false
-		ast.Inspect(fi.Decl.Body, func(m ast.Node) bool {
-			if as, k := m.(*ast.AssignStmt); k && len(as.Lhs) == 1 && exprStr(as.Lhs[0]) == "foundSize" && exprStr(as.Rhs[0]) == "item.size" {
-				ok = true
-			}
-			return true
-		})
-		R.Check(ok, "R10a", c.Cfg+"findMissingLocalCAS:foundSize", c.P.Pos(fi.Decl.Pos()), "the size compared is the indexed entry's logical size", "foundSize is not item.size")
+		R.Check(itemObj != nil && elemObj != nil, "R10a", c.Cfg+"findMissingLocalCAS:lookup", c.P.Pos(fi.Decl.Pos()), "the index lookup (item, element := lru.Get) was found", "no lru.Get lookup found")
 	}
 	if fi := c.P.MustFunc(R, "R10a", "disk.(*diskCache).containsWorker"); fi != nil {
 		var base *Base
 		n := 0
+		// *(<check>.digest) = nil : a store of nil through a **Digest
+		isClear := func(x *Exec, as *ast.AssignStmt) bool {
+			if len(as.Lhs) != 1 || len(as.Rhs) != 1 || !isNilIdent(x.Fn.Info, as.Rhs[0]) {
+				return false
+			}
+			st, ok := ast.Unparen(as.Lhs[0]).(*ast.StarExpr)
+			if !ok {
+				return false
+			}
+			t := x.Fn.Info.TypeOf(st.X)
+			return t != nil && strings.HasPrefix(t.String(), "**") && strings.HasSuffix(t.String(), ".Digest")
+		}
 		base = NewBase(Hooks{
 			Assign: func(x *Exec, as *ast.AssignStmt, s St) []St {
 				if len(as.Rhs) == 1 && len(as.Lhs) == 2 {
@@ -87,31 +118,30 @@ func findMissingRules(c *Ctx) {
 				return []St{s}
 			},
 			PreAssign: func(x *Exec, as *ast.AssignStmt, s St) St {
-				if len(as.Lhs) == 1 && exprStr(as.Rhs[0]) == "nil" {
-					if st, ok := ast.Unparen(as.Lhs[0]).(*ast.StarExpr); ok && strings.HasSuffix(exprStr(st.X), ".digest)") || ok && strings.HasSuffix(exprStr(st.X), ".digest") {
-						n++
-						good := false
-						for k, v := range s.m {
-							if strings.HasPrefix(k, "b:") && v == "true" && s.Get("v:"+k[2:]) == "contains" {
-								good = true
-							}
+				if isClear(x, as) {
+					n++
+					good := false
+					for k, v := range s.m {
+						if strings.HasPrefix(k, "b:") && v == "true" && s.Get("v:"+k[2:]) == "contains" {
+							good = true
 						}
-						R.Check(good, "R10a", c.Cfg+"containsWorker:clear", c.P.Pos(as.Pos()), "the worker clears a digest only after proxy.Contains returned true", "the worker clears a digest without a positive backend answer", x.Trace()...)
-						sized := false
-						if sz := s.Get("cwsize"); sz != "" {
-							for k, v := range s.m {
-								if strings.HasPrefix(k, "p:disk.isSizeMismatch(") && strings.Contains(k, ".SizeBytes,"+sz+")") && v == "F" {
-									sized = true
-								}
-							}
-						}
-						R.Check(sized, "R10a", c.Cfg+"containsWorker:clear:sized", c.P.Pos(as.Pos()), "the worker clears a digest only when the size the backend reports does not mismatch the requested size (as Contains does)",
-							"the size reported by the backend is ignored: a digest (h, n') is reported present on the strength of a backend object (h, n)", x.Trace()...)
 					}
+					R.Check(good, "R10a", c.Cfg+"containsWorker:clear", c.P.Pos(as.Pos()), "the worker clears a digest only after proxy.Contains returned true", "the worker clears a digest without a positive backend answer", x.Trace()...)
+					sized := false
+					if sz := s.Get("cwsize"); sz != "" {
+						for k, v := range s.m {
+							if strings.HasPrefix(k, "p:disk.isSizeMismatch(") && strings.Contains(k, ".SizeBytes,"+sz+")") && v == "F" {
+								sized = true
+							}
+						}
+					}
+					R.Check(sized, "R10a", c.Cfg+"containsWorker:clear:sized", c.P.Pos(as.Pos()), "the worker clears a digest only when the size the backend reports does not mismatch the requested size (as Contains does)",
+						"the size reported by the backend is ignored: a digest (h, n') is reported present on the strength of a backend object (h, n)", x.Trace()...)
 				}
 				return s
 			},
 		})
+		base.InlineOwnHelpers()
 		x := NewExec(c.P.FlowOf(fi), base)
 		x.Run(newSt())
 		R.Check(n >= 1, "R10a", c.Cfg+"containsWorker:clears", "", "the worker's clearing assignment was found", "not found")
